@@ -2,9 +2,13 @@ import P2sh.Driver.Util
 import P2sh.Driver.Enc
 import P2sh.Driver.OpsDrv
 import P2sh.Driver.HMapDrv
+import P2sh.Driver.PktDrv
 import P2sh.Driver.LangDrv
 import P2sh.Driver.BuiltinDrv
 import P2sh.Driver.ScanDrv
+import P2sh.Driver.PcapDrv
+import P2sh.Driver.FileDrv
+import P2sh.Driver.IoFaultDrv
 import P2sh.Driver.VmDrv
 import P2sh.Driver.SymtabDrv
 import P2sh.Driver.CliDrv
@@ -28,8 +32,14 @@ def dispatch (line : String) : String :=
     | "un" => OpsDrv.runUn args
     | "eqhash" => OpsDrv.runEqHash args
     | "hmap" => HMapDrv.run args
+    | "pkt" => PktDrv.runPkt args
+    | "addr" => PktDrv.runAddr args
     | "builtin" => BuiltinDrv.run args
     | "scan" => ScanDrv.runScan args
+    | "pcap" => PcapDrv.run args
+    | "fread" => FileDrv.runRead args
+    | "fwrite" => FileDrv.runWrite args
+    | "iofault" => IoFaultDrv.run args
     | "symtab" => SymtabDrv.run args
     | "cli" => CliDrv.run args
     | "parse" => "MODEL-SKIP ## nopanic"
